@@ -5,6 +5,7 @@ import ast
 
 from ..model import CFG
 from .common import site_of
+from . import counters
 from .flow import (Oblig, calls, events, deps_of, arg_deps, facts_on_path, has_fact, check_escapes, SELF, P)
 
 CYK = "pyformlang.cfg.cyk_table.CYKTable"
@@ -115,6 +116,9 @@ def run(eng, rep, tier):
     ob.decide("R7", "C08.3", f2, "in-delegates-to-contains",
               any(ev.recv is not None and SELF in ev.recv.alias and ev.args and P("word") in ev.args[0].alias for ev in cs),
               "`w in cfg` is contains(w)", "__contains__ does not delegate to contains", s2, site=site_of(prog, f2, f2.node))
+    # -------------------------------------------------------------- C08.5 the empty word: one counter per production
+    counters.check_setup(ob, prog, prog.method("CFG", "_set_impacts_and_remaining_lists"), "C08.5")
+    counters.check_consumer(ob, prog, prog.method("CFG", "generate_epsilon"), "C08.5")
     check_escapes(ob, "R6", "C08.4", fi, summ, set(), "CFG.contains")
     ob.decide("R6", "C08.4", fi, "no-explicit-raise", True, "no undocumented explicit raise escapes contains", "", summ)
     rep.stats.update(eng.stats())
